@@ -312,6 +312,8 @@ def child_env(config):
     }
     if config.get("malloc"):
         env["PYTHONMALLOC"] = config["malloc"]
+    if config.get("optimize"):
+        env["PYTHONOPTIMIZE"] = str(config["optimize"])
     return env
 
 
@@ -346,6 +348,7 @@ def choose_configs(seed, count):
             "hashseed": hs,
             "pad": rng.choice([0, 17, 256, 1031, 4099, 8192, 20000, 50000, 100000]),
             "malloc": rng.choice(["", "", "malloc"]),
+            "optimize": rng.choice([0, 0, 0, 2]),
         }
         for hs in chosen
     ]
@@ -659,7 +662,7 @@ def _check(tier, seed, n_docs, configs, orders_reachable, n_cli, n_cli_conf, wor
         },
         "components": {
             "real": ["statham/* from /repo working tree", "json_ref_dict", "CPython interpreters (one per configuration)", "python -m statham command line"],
-            "seam": ["PYTHONHASHSEED", "setarch -R (ASLR off)", "environment padding", "PYTHONMALLOC"],
+            "seam": ["PYTHONHASHSEED", "setarch -R (ASLR off)", "environment padding", "PYTHONMALLOC", "PYTHONOPTIMIZE"],
             "stub": [],
         },
         "determinism_sample": {"same_configuration_twice_identical": det_ok},
